@@ -310,8 +310,12 @@ class SolverWrapper:
                     raise ValueError(f"Length of {param_name} does not match number of indexes.")
                 return [float(x) for x in seq]
             except TypeError:
-                # Not iterable; fall back to default scalar for all
-                return [float(default_value)] * len(indexes)
+                # Not iterable: a scalar of another numeric type (Fraction, Decimal, a 0-dimensional numpy array) is a scalar bound too
+                try:
+                    return [float(param)] * len(indexes)
+                except (TypeError, ValueError):
+                    # Not a number either; fall back to default scalar for all
+                    return [float(default_value)] * len(indexes)
 
         lbs = _materialize_bounds(lb, 0.0, "lb")
         ubs = _materialize_bounds(ub, 1.0, "ub")
